@@ -58,3 +58,16 @@ Example C12_ex :
   counts (w_o (final_world ex_cfg ex_env ex_world ops)) =
     [({| ck_sp := protocol_ibc; ck_sc := "channel-0"; ck_dp := protocol_cctp; ck_dc := "0" |}, 2)].
 Proof. vm_compute. split; reflexivity. Qed.
+
+(* ---------- on ANY chain, whatever its Hyperlane hooks charge for gas: the statistics after a history are the
+   fold of its successful transfers (a transfer that a charging hook makes fail is not one; one that it lets
+   through is recorded exactly as on the chain without the hook) ---------- *)
+From Orbiter Require Import Proofs.GasHistories.
+Theorem C12_fold_any_hooks : forall g cfg e ops w,
+  fits_along_gas g cfg e w ops ->
+  (forall k, stat_get (w_o (fst (run_ops_gas g cfg e w ops))) k =
+             (fst (stat_get (w_o w) k) + sum_in (snd (run_ops_gas g cfg e w ops)) k,
+              snd (stat_get (w_o w) k) + sum_out (snd (run_ops_gas g cfg e w ops)) k)) /\
+  (forall k, count_get (w_o (fst (run_ops_gas g cfg e w ops))) k = count_get (w_o w) k + sum_count (snd (run_ops_gas g cfg e w ops)) k).
+Proof. exact stats_fold_gas. Qed.
+Print Assumptions C12_fold_any_hooks.
